@@ -315,6 +315,11 @@ def write_evidence(check, tier, seed, stats, wall, violations, extra_cov=None):
 
 
 def main(modname):
+    # One fixed string-hash seed per run (set iteration order of str-keyed sets must not vary between
+    # runs of the same VERIF_SEED); C06 varies it on purpose in subprocesses.
+    if os.environ.get("PYTHONHASHSEED") is None:
+        os.environ["PYTHONHASHSEED"] = "0"
+        os.execv(sys.executable, [sys.executable, "-m", modname] + sys.argv[1:])
     mod = importlib.import_module(modname)
     check = mod.CHECK
     ap = argparse.ArgumentParser()
